@@ -112,6 +112,7 @@ GJT_IMPORTS = ['Coq.Lists.List', 'Coq.Bool.Bool', 'Coq.QArith.QArith', 'SV.Rot.R
 COPIES_IMPORTS = ['Coq.Lists.List', 'Coq.Bool.Bool', 'SV.Rot.RotCopies', 'SV.Gen.RotCopies_gen']
 METHOD_IMPORTS = ['Coq.Lists.List', 'Coq.Bool.Bool', 'SV.Rot.RotMethods', 'SV.Gen.RotMethods_gen']
 INPLACE_IMPORTS = ['Coq.Lists.List', 'Coq.Bool.Bool', 'SV.Rot.RotInplace', 'SV.Gen.RotInplace_gen']
+PIVOT_IMPORTS = ['Coq.Lists.List', 'Coq.Bool.Bool', 'SV.Rot.RotPivot', 'SV.Gen.RotPivot_gen']
 STATE_IMPORTS = ['Coq.Lists.List', 'Coq.Bool.Bool', 'SV.Rot.RotState', 'SV.Gen.RotState_gen']
 ROUND_IMPORTS = ['Coq.Lists.List', 'Coq.Bool.Bool', 'Coq.QArith.QArith', 'SV.Rot.RotRound', 'SV.Gen.RotRounded_gen']
 TOL = 1e-9
@@ -2073,6 +2074,7 @@ def run(ck: Ck) -> None:
     ok_im = ok_f and ok_d and ck.translate('RotMethods_gen', trp.translate_methods)
     ok_cp = ck.translate('RotCopies_gen', trp.translate_copies)
     ok_st = ck.translate('RotState_gen', trs.translate_state)
+    ok_pv = ck.translate('RotPivot_gen', tri.translate_pivot)
     A = tr.analyse() if (ok_f and ok_d) else None
     built = False
     # 1. models and generated objects (definitions only: these compile whatever the source computes)
@@ -2080,6 +2082,7 @@ def run(ck: Ck) -> None:
                        'Rot/RotInplace.vo', 'Rot/RotMethods.vo', 'Rot/RotCopies.vo', 'Rot/RotState.vo']
                       + (['Gen/RotCopies_gen.vo'] if ok_cp else [])
                       + (['Gen/RotState_gen.vo'] if ok_st else [])
+                      + (['Rot/RotPivot.vo', 'Gen/RotPivot_gen.vo'] if ok_pv else [])
                       + (['Gen/RotInplace_gen.vo'] if ok_ip else [])
                       + (['Gen/RotMethods_gen.vo'] if ok_im else [])
                       + (['Gen/RotFormulas_gen.vo', 'Gen/RotDispatch_gen.vo'] if A is not None else [])
@@ -2130,6 +2133,16 @@ def run(ck: Ck) -> None:
             'matrix_copies_are_new_objects_of_the_right_class': 'forallb crow_ok copy_table',
             'matrix_copies_ok': 'copies_ok copy_table',
         })
+    if ok_pv and models:
+        # the SHAPE of the pivot searches of inverse(), read by a tolerant reader (also when the program translator fails closed):
+        # an accepted shape selects a non-zero, largest entry whenever there is one (c04_pivot_search_finds_nonzero_pivot)
+        group(PIVOT_IMPORTS, {
+            'inverse_pivot_search_compares_with_gt': 'forallb pv_cmp_ok pivot_shapes_today',
+            'inverse_pivot_search_starts_from_zero_or_from_an_absolute_value': 'forallb pv_seed_ok pivot_shapes_today',
+            'inverse_pivot_search_missing_pivot_test_matches_its_start': 'forallb pv_miss_ok pivot_shapes_today',
+            'inverse_pivot_search_selects_a_nonzero_entry_when_there_is_one': 'pv_shapes_ok pivot_shapes_today',
+        })
+        ck.extra['pivot_shapes'] = tri.translate_pivot()[1]['pivot_shapes']
     if ok_st and models:
         # census of process state (round 5): nothing that outlives a call is updated by a function, no caching decorator, no
         # mutable default, no global declaration, no reflective access, no foreign import -> every call of a history returns
@@ -2225,7 +2238,7 @@ def run(ck: Ck) -> None:
         built = core and ck.build(['Props/C04.vo'])
         if built:
             theorems_with_axioms(ck)
-            if ok_i and ok_ip and ok_im and ok_st:
+            if ok_i and ok_ip and ok_im and ok_st and ok_pv:
                 # today's generated table / program / census meet the hypotheses of c04_property (one Example, kernel-checked)
                 ck.build(['Props/C04Today.vo'])
     # 4. correspondences and 5. searches, each under `guarded` (exception / hang -> violation with the input in flight)
@@ -2296,6 +2309,7 @@ def run(ck: Ck) -> None:
         ck.explain('correspondence:inverse')
         # the translator could not read inverse() (fail closed) AND the search exhibits a concrete wrong inverse
         ck.explain('translate:RotInverse_gen')
+        ck.explain('translate:RotPivot_gen')
     # a changed _vec_rot / _mat_mul tree changes its error bound too: explained by the concrete wrong value
     for fn, pref in (('_vec_rot', 'instance:vec_rot_rounding'), ('_mat_mul', 'instance:mat_mul_rounding'),
                      ('from_angle', 'instance:from_angle_')):
@@ -2307,7 +2321,8 @@ def run(ck: Ck) -> None:
         ck.explain('translate:Rot')
     # Props/C04Today.v is the conjunction of five instance obligations: it fails with them and is explained with them
     if any(o['name'] in ('instance:dispatch_table_ok', 'instance:inverse_prog_ok', 'instance:inverse_total_on_rotations',
-                         'instance:inplace_census_ok', 'instance:inplace_methods_ok', 'instance:state_census_ok') and not o['ok'] and o.get('explained') for o in ck.obligations):
+                         'instance:inplace_census_ok', 'instance:inplace_methods_ok', 'instance:state_census_ok',
+                         'instance:inverse_pivot_search_selects_a_nonzero_entry_when_there_is_one') and not o['ok'] and o.get('explained') for o in ck.obligations):
         ck.explain('build:Props/C04Today.vo')
     explain_build(ck, keys)
 
